@@ -37,7 +37,10 @@ def key_of(clause, label, prog, tr, l):
 def run(chk):
     items = []
     progs = [("resumable(2,2,3,1)", sc.resumable(2, 2, 3, 1), ()),
-             ("resumable_wait", sc.resumable_wait(), (("Resp", "x0", 1),))]
+             ("resumable_wait", sc.resumable_wait(), (("Resp", "x0", 1),)),
+             # a wait_for_event whose timeout fires (the step goes on after its TimeoutError): the waiter_timeout tick is part
+             # of the persisted history that a restart rebuilds the run from
+             ("wait_timeout_then_stop", sc.wait_timeout_then_stop(5), ())]
     if not chk.quick:
         progs += [("resumable(1,3,2,1)", sc.resumable(1, 3, 2, 1), ()), ("resumable(2,2,3,1,delay=2)", sc.resumable(2, 2, 3, 1, 2), ())]
     orders = [("fifo", 0), ("lifo", 0)] if chk.quick else [("fifo", 0), ("lifo", 0), ("rand", chk.seed), ("rand", chk.seed + 1)]
